@@ -98,22 +98,25 @@ def ringsBrute (pool : List Fragment) : List (List Oriented) :=
   (arrangements vals.length vals).filter fun os => decide (Ring pool os)
 
 /-- walk in the overhang graph: extend the path (kept reversed) by any unused oriented fragment
-whose forward overhang is the path's open reverse overhang; report the path whenever it closes -/
-def walks (vals : List Fragment) (start : Fragment) : Nat → List Oriented → Fragment → List (List Oriented)
+whose forward overhang is the path's open reverse overhang; report the path whenever it closes.
+With `simpleOnly` a path whose open overhang already occurs as one of its junctions is not extended
+(such a path can only grow into rings with a repeated junction overhang). -/
+def walks (simpleOnly : Bool) (vals : List Fragment) (start : Fragment) : Nat → List Oriented → Fragment → List (List Oriented)
   | 0, _, _ => []
   | fuel + 1, path, last =>
     (if last.rev == start.fwd then [path.reverse] else []) ++
-    vals.flatMap fun n =>
-      if path.any (fun o => o.frag == n) then [] else
-        [false, true].flatMap fun b =>
-          let o : Oriented := ⟨n, b⟩
-          if last.rev == o.get.fwd then walks vals start fuel (o :: path) o.get else []
+    (if simpleOnly && path.any (fun o => o.get.fwd == last.rev) then [] else
+      vals.flatMap fun n =>
+        if path.any (fun o => o.frag == n) then [] else
+          [false, true].flatMap fun b =>
+            let o : Oriented := ⟨n, b⟩
+            if last.rev == o.get.fwd then walks simpleOnly vals start fuel (o :: path) o.get else [])
 
-/-- all rings by graph walk from every oriented start -/
-def ringsWalk (pool : List Fragment) : List (List Oriented) :=
+/-- all rings (or, with `simpleOnly`, at least all simple rings) by graph walk from every oriented start -/
+def ringsWalk (simpleOnly : Bool) (pool : List Fragment) : List (List Oriented) :=
   let vals := pool.eraseDups
   vals.flatMap fun n => [false, true].flatMap fun b =>
     let o : Oriented := ⟨n, b⟩
-    walks vals o.get (vals.length + 1) [o] o.get
+    walks simpleOnly vals o.get (vals.length + 1) [o] o.get
 
 end PolyVerif.Spec.Rings
